@@ -93,10 +93,20 @@ def explore(root, tier, ctx):
     svs = sl if game != "bms" else [()]
     if game == "qua" and tier == "quick":
         svs = [s for s in sl if len(s) <= 1] + [s for s in sl if len(s) == 2 and s[0][0] == s[1][0]]
+    if tier == "thorough":
+        # three SVs only on tempo lists of <= 2 points; Quaver (same code path as osu) with <= 2 SVs and the quick tempo lists
+        if len(bp) > 2:
+            svs = [s for s in svs if len(s) <= 2]
+        if game == "qua":
+            if bp not in set(bpm_layouts("quick")):
+                return
+            svs = [s for s in svs if len(s) <= 2]
     for sv in svs:
         for nk in NOTES:
             for ov in (None, 100.0):
                 if tier == "quick" and (ov is not None or nk != "hits") and (len(sv) > 1 or (ov is not None and nk != "hits")):
+                    continue
+                if tier == "thorough" and ov is not None and nk != "hits":
                     continue
                 check_one(game, bp, sv, nk, ov, ctx)
 
